@@ -37,12 +37,12 @@ class C13(core.Check):
                   "request_fragmentation_independent, response_fragmentation_independent (incl. the far side closing after the last read), "
                   "chunk_fragmentation_independent, reader_fragmentation_independent (generic), line_decision_stable / line_too_long_stable "
                   "(the decision of the end-of-line search on a buffer is the decision on every extension; false before the fix of F18: "
-                  "old_search_depends_on_split).  The models are tied to the code by the correspondence run (model result = real parser result on every "
+                  "old_search_depends_on_split), eol_sites_match (the eols tuples of every call site, regenerated).  The models are tied to the code by the correspondence run (model result = real parser result on every "
                   "generated case, whole and fragmented) and the regenerated tables (eols per call site, MAX_LINE_SIZE, MAX_HEADERS, METHODS, text-primitive probes).")
     level_note = ("Trusted: Lean kernel; translator harness/extract/httpparse.py; representativeness of the sampled correspondence; "
                   "urllib.urlsplit verdict on request targets and CPython str/bytes primitives enter the model as probed tables/parameters.")
     quick_n = 700
-    thorough_n = 12000
+    thorough_n = 40000
     rule = ("cases: grammar-directed request / response pipelines (content-length, chunked with extensions and trailers, close-delimited; CRLF, bare LF, mixed; "
             "bodies with CR/LF bytes; 100-continue; HEAD), 30% near-valid mutations, each under a seeded partition (uniform cut sets, all 1-byte, cuts inside/around "
             "every terminator, tail byte by byte); non-trivial = at least one cut and at least one message or error decided; distinct by request line")
@@ -66,6 +66,11 @@ class C13(core.Check):
               ("resp", True, b"HTTP/1.1 200 OK\r\nContent-Length: 5\r\n\r\nHTTP/1.1 204 No\r\n\r\n", (3, 20), False, None),
               ("resp", False, b"HTTP/1.1 200 OK\r\nContent-Length: 5\r\n\r\nab", (), True, None),
               ("resp", False, b"", (), True, None)]
+        for cl in (b"2\x1c", b"\xa02", b"+2", b"0_2", b"2_", b"-0", b" 2 ", b"\x852", b"2\x1f", b"", b"\xb2"):    # int() on Content-Length
+            cs.append(("req", b"POST /c HTTP/1.1\r\ncontent-length: " + cl + b"\r\n\r\n:0GET / HTTP/1.1\r\n\r\n", (30, 41), None))
+            cs.append(("resp", False, b"HTTP/1.1 200 OK\r\ncontent-length: " + cl + b"\r\n\r\n:0HTTP/1.1 204 N\r\n\r\n", (30,), True, None))
+        for st in (b"+200", b"2_0_0", b"099", b"1000", b"\xb2\xb2\xb2", b"200\x1c", b"-200"):      # int() on the status code
+            cs.append(("resp", False, b"HTTP/1.1 " + st + b" OK\r\nContent-Length: 0\r\n\r\n", (12,), False, None))
         for nh in (99, 100, 101):       # MAX_HEADERS boundary, head and trailers
             hs = b"".join(b"H%d: v\r\n" % i for i in range(nh))
             cs.append(("req", b"GET / HTTP/1.1\r\n" + hs + b"\r\nGET /2 HTTP/1.1\r\n\r\n", (40, 700), None))
@@ -100,7 +105,17 @@ class C13(core.Check):
         cs = [("req", m, (i,), None) for i in range(1, len(m))] + [("req", m, (i, j), None) for i in range(1, len(m)) for j in range(i + 1, len(m))]
         r = b"HTTP/1.1 200 OK\nTransfer-Encoding: chunked\r\n\n1\r\n\r\r\n0\r\n\r\nHTTP/1.0 200 OK\r\n\r\nab\r"
         cs += [("resp", False, r, (i,), True, None) for i in range(1, len(r))] + [("resp", False, r, (i, j), True, None) for i in range(1, len(r)) for j in range(i + 1, len(r))]
-        return cs, "every 1-cut and 2-cut partition of one mixed-terminator chunked request pipeline and one response pipeline"
+        for c in range(256):        # every byte value at each position where a text primitive decides (lower, split, strip, int)
+            if c in (10, 13):
+                continue
+            b1 = bytes([c])
+            k = bytes([88, c])
+            for other in (k.decode('latin-1').upper().encode('latin-1', 'replace'), k.decode('latin-1').lower().encode('latin-1', 'replace')):
+                cs.append(("req", b"GET / HTTP/1.1\r\n" + k + b": 1\r\n" + other + b": 2\r\nContent-Length" + b1 + b": 0\r\nTransfer-Encoding: chunke" + b1 + b"\r\n\r\n", (20,), None))
+            cs.append(("req", b"GET /" + b1 + b"x HTTP/1.1" + b1 + b"\r\nA:" + b1 + b"1\r\nContent-Length: " + b1 + b"0" + b1 + b"\r\n\r\n", (9,), None))
+            cs.append(("resp", False, b"HTTP/1.1" + b1 + b"200 O" + b1 + b"K\r\nConnection: clos" + b1 + b"\r\nContent-Type: text/event-strea" + b1 + b";" + b1 + b"\r\n\r\n", (11,), True, None))
+        return cs, ("every 1-cut and 2-cut partition of one mixed-terminator chunked request pipeline and one response pipeline; "
+                    "every byte value at the positions decided by str.lower / split / strip / int")
 
     def request(self, case):
         return hp.request_of(case)
